@@ -429,3 +429,111 @@ Proof.
   exists hist_early, 1%nat, 2%nat, 0%nat, 33%nat, (OAllow (B + 2) 1000 1000).
   vm_compute. repeat split; reflexivity.
 Qed.
+
+(* ------------------------------------------------------------------ *)
+(* 12. seeded C02-5: maxFlight() memoised per "bucket epoch" timex.Now() / bucketDuration.  The windows' buckets are
+      aligned with the instant the shedder was BUILT, the epochs with the process clock: unless the shedder was built on
+      a multiple of the bucket duration, a bucket of the window completes in the middle of an epoch and the memo keeps
+      the estimate from before.  Two overloaded Allows in one epoch, on both sides of that boundary: the second is let
+      in against the stale estimate although in flight and its average exceed the capacity estimate of the property
+      (peak per-bucket pass count x minimum average latency over the completed buckets = Props.capacity_def). *)
+Definition high_thru_with (m : Q) (s : state) (cpu2 : Z) : bool :=
+  match overload_factor (sthreshold s) cpu2 with
+  | None => false
+  | Some f => q_ltb (m * f)%Q (avgFlying s) && q_ltb (m * f)%Q (inject_Z (flying s))
+  end.
+
+Definition step_memo (bd : Z) (sm : state * option (Z * Q)) (o : op) : (state * option (Z * Q)) * res :=
+  let '(s, memo) := sm in
+  match o with
+  | OAllow now c1 c2 =>
+    let '(s1, h) := hot_check s now c1 in
+    if h then
+      let epoch := now / bd in
+      let m := match memo with
+               | Some (e, v) => if e =? epoch then v else max_flight s1 now
+               | None => max_flight s1 now
+               end in
+      let '(s2, r) := allow_finish s1 now (high_thru_with m s1 c2) in
+      ((bump s2, Some (epoch, m)), r)
+    else
+      let '(s2, r) := allow_finish s1 now false in ((bump s2, memo), r)
+  | _ => let '(s', r) := step s o in ((s', memo), r)
+  end.
+
+Fixpoint final_memo (bd : Z) (sm : state * option (Z * Q)) (ops : list op) : state * option (Z * Q) :=
+  match ops with [] => sm | o :: ops' => final_memo bd (fst (step_memo bd sm o)) ops' end.
+
+Definition t0_off : Z := B + 30 * ms.     (* built 30 ms past a multiple of the 100 ms bucket duration *)
+Definition hist_memo : list op :=
+  repeat (OAllow t0_off 0 0) 20 ++ map (fun i => OPass (Z.of_nat i) (t0_off + 50 * ms)) (seq 0 10)
+  ++ [OFail 10; OFail 11; OAllow (t0_off + 80 * ms) 900 900].
+
+Theorem memoised_capacity_lets_in_when_saturated_refuted :
+  exists c t0 pre now cpu,
+    let sv := final_memo (bucket_duration c) (init c t0, None) pre in
+    let sr := final (init c t0) pre in
+    cenabled c = true /\ cthreshold c <= cpu /\ cthreshold c <> cpuMax /\
+    fst sv = sr /\
+    (capacity sr now < inject_Z (flying sr))%Q /\ (capacity sr now < avgFlying sr)%Q /\
+    snd (step_memo (bucket_duration c) sv (OAllow now cpu cpu)) = RAdmit /\
+    snd (step sr (OAllow now cpu cpu)) = RShed.
+Proof.
+  exists default_config, t0_off, hist_memo, (t0_off + 110 * ms), 900.
+  vm_compute. repeat split; try reflexivity; discriminate.
+Qed.
+
+(* ------------------------------------------------------------------ *)
+(* 13. seeded C02-6: RollingWindow.updateOffset advances lastTime by span x interval (span is clipped to the number of
+      buckets) instead of realigning it with the clock.  After an idle period of more than two windows lastTime lags a
+      whole window or more behind: every Add "crosses" all buckets again and wipes the window, Reduce sees nothing.
+      The capacity estimate falls back to the default (1 x 1000 ms x scale) although two requests have just passed
+      with 50 ms latency (true estimate 1.02): an overloaded Allow with 5 in flight and an average above 3 is let in. *)
+Definition rw_update_drift (w : rw) (now : Z) : rw :=
+  let span := rw_span w now in
+  match span with
+  | O => w
+  | _ => mkRW (rsize w) (rinterval w) ((roffset w + span) mod rsize w)
+              (rlast w + Z.of_nat span * rinterval w) (rignore w)
+              (rw_reset (rsize w) (roffset w) span (rbuckets w))
+  end.
+
+Definition rw_add_drift (w : rw) (now v : Z) : rw :=
+  let w' := rw_update_drift w now in
+  let i := (roffset w' mod rsize w')%nat in
+  mkRW (rsize w') (rinterval w') (roffset w') (rlast w') (rignore w')
+       (set_nth i (nth i (rbuckets w') [] ++ [v]) (rbuckets w')).
+
+Definition step_drift (s : state) (o : op) : state * res :=
+  let '(s', r) := match o with
+                  | OAllow now c1 c2 => allow s now c1 c2
+                  | OPass id now =>
+                    match prom_start id (proms s) with
+                    | None => (s, RNoop)
+                    | Some start =>
+                      let s1 := dec_flying s in
+                      (set_windows s1 (rw_add_drift (passCounter s1) now 1)
+                                      (rw_add_drift (rtCounter s1) now (ceil_ms (now - start))), RDone)
+                    end
+                  | OFail id => fail s id
+                  end in (bump s', r).
+
+Definition hist_drift : list op :=
+  repeat (OAllow B 0 0) 10 ++ fails 0 5                                             (* 0..14: 5 in flight *)
+  ++ [OAllow (B + 15 * sec - 50 * ms) 0 0; OAllow (B + 15 * sec - 50 * ms) 0 0]     (* 15, 16: after three idle windows *)
+  ++ [OPass 15 (B + 15 * sec); OPass 16 (B + 15 * sec + ms)].                       (* two passes of 50 ms in one bucket *)
+
+Theorem window_drift_blind_after_idle_refuted :
+  exists c t0 pre now cpu,
+    let sv := final_by step_drift (init c t0) pre in
+    let sr := final (init c t0) pre in
+    cenabled c = true /\ cthreshold c <= cpu /\ cthreshold c <> cpuMax /\
+    flying sv = flying sr /\ avgFlying sv = avgFlying sr /\
+    (capacity sr now < 2)%Q /\
+    (capacity sr now < inject_Z (flying sr))%Q /\ (capacity sr now < avgFlying sr)%Q /\
+    snd (step_drift sv (OAllow now cpu cpu)) = RAdmit /\
+    snd (step sr (OAllow now cpu cpu)) = RShed.
+Proof.
+  exists default_config, B, hist_drift, (B + 15 * sec + 150 * ms), 900.
+  vm_compute. repeat split; try reflexivity; discriminate.
+Qed.
